@@ -141,7 +141,8 @@ class Session:
                 continue
             for sub in self.prog.subclasses(ci):
                 q = f"{sub.qualname}.{meth}"
-                if meth in sub.methods and q not in known and not sub.is_abstractmethod(meth):
+                if meth in sub.methods and q not in known and not sub.is_abstractmethod(meth) and (sub.qualname, meth) not in self.anchors:
+                    # (an override that a rule examined through the subclass itself - s.method(<subclass>, meth) - is analysed, not foreign)
                     out.append(f"{q} overrides the analysed {cq.rsplit('.', 1)[-1]}.{meth}")
         return sorted(set(out))
 
